@@ -261,6 +261,10 @@ def run(ctx):
         a, b = oa.get(k, set()), ob.get(k, set())
         toks = {kk for c in a | b for kk, _ in c}
         same = (a == b) or (len(toks) <= 10 and bool(a) == bool(b) and semantics(a, toks) == semantics(b, toks))
+        if k == 'write' and bool(a) != bool(b):
+            # one of the two has no indexed store of a weight at all (it reaches the slot some other way): nothing to compare
+            ctx.anchor_lost(rule, 'the dense write of %s' % ('the scan-based import' if a else 'the hash-based import'), 'no indexed f64 store found')
+            continue
         ctx.verdict(same, rule, '%s:%s' % (rule, k), 'the hash-based and the scan-based import reach outcome %s under exactly the same combinations of checks' % k, '',
                     'hash: %s | scan: %s' % (fmt(a), fmt(b)) if a != b else '%d context(s), identical: %s' % (len(a), fmt(a)),
                     breaks='from_named and from_named_eq disagree on some input')
@@ -277,7 +281,25 @@ def run(ctx):
         w = o.get('write', set())
         need = {('W:>=0', True), ('W:finite', True), ('A:lookup', 'hit')}
         ok = bool(w) and all(need <= c and any(k == 'L:table#0' and v == 'Some' for k, v in c) for c in w)
-        ctx.verdict(ok, rule, '%s:%s' % (rule, nm), 'every write to the dense vector happens only for a weight that is >= 0 and finite, in an existing infoset, for a legal action', f.where(0), 'write contexts: %s' % fmt(w),
+
+        def replayed(bi_, rhs_):
+            # the stored value is an item of a collection built by an earlier stage (not of the caller's input) and no test
+            # of it lies on the way: the validated writes were recorded first and are replayed here
+            v_ = norm(rhs_)
+            nx_ = q.find_sub(v_, lambda x: q.is_call(x, 'next'))
+            if nx_ is None:
+                return False
+            from_input = q.find_sub(nx_, lambda x: x[0] == 'param' and x[1] == 1) is not None
+            tested_ = any(c['kind'] in ('IsFinite', 'Ge', 'Gt', 'Lt', 'Le') for c in f.conds(bi_))
+            return not from_input and not tested_
+        wsites = [(bi, rhs) for bi, st, pl, rhs in q.stores(f) if st['pl']['p'] and st['pl']['p'][-1]['k'] == 'index' and st['pl']['ty'] == 'f64']
+        all_replayed = bool(wsites) and all(replayed(bi, rhs) for bi, rhs in wsites)
+        if not w:
+            ctx.anchor_lost(rule, '%s: the store of a weight into the dense vector' % nm, 'no indexed f64 store found (the slot is reached some other way)')
+        elif all_replayed and not ok:
+            ctx.anchor_lost(rule, '%s: where the stored weights were validated' % nm, 'the writes replay a list recorded by an earlier stage')
+        else:
+          ctx.verdict(ok, rule, '%s:%s' % (rule, nm), 'every write to the dense vector happens only for a weight that is >= 0 and finite, in an existing infoset, for a legal action', f.where(0), 'write contexts: %s' % fmt(w),
                     breaks='negative, NaN or infinite weights, or weights for unknown actions, enter the profile')
         # the stored value is the tested weight, stored plainly, at the looked-up index
         for bi, st, pl, rhs in q.stores(f):
@@ -287,6 +309,8 @@ def run(ctx):
                 same = bool(tested) and tested[-1]['a'] == val
                 idx = f.local_expr(st['pl']['p'][-1]['l'])
                 from_lookup = q.find_sub(idx, lambda x: q.is_call(x, 'ok_or')) is not None or q.find_sub(idx, lambda x: x[0] == 'downcast' and x[2] in ('Some', 'Continue')) is not None
+                if all_replayed and not same:
+                    continue
                 ctx.verdict(same and from_lookup, rule, '%s:%s:value-and-index' % (rule, nm), 'the value stored is the validated weight itself (plain store: a repeated entry overrides) at the index obtained from the lookup of that infoset and action', f.where(bi),
                             'stored value is the tested weight: %s; index from the lookup: %s' % (same, from_lookup), breaks='weights are accumulated instead of overridden, or land in another action\'s slot')
         rule = 'C14.error-kinds'
